@@ -95,15 +95,16 @@ G_SENTENCE = (" Call sites (Engine G): the libawkward C++ methods that call thes
 
 
 N_FAMILIES = {
- "C01": "getitem_basic (integers, ranges with any bounds/step, ellipsis, newaxis, fields), getitem_array (one or two adjacent integer arrays of one or two dimensions, boolean arrays, index arrays with missing values), getitem_jagged (jagged integer/boolean indexes with missing entries), getitem_numpy (rectilinear arrays against NumPy's own indexing as oracle), carry_range (carry, x[a:b], x[i])",
+ "C01": "getitem_basic (integers, ranges with any bounds/step, ellipsis, newaxis, fields), getitem_array (one or two adjacent integer arrays of one or two dimensions, boolean arrays, index arrays with missing values), getitem_jagged (jagged integer/boolean indexes with missing entries), getitem_numpy (rectilinear arrays against NumPy's own indexing as oracle), carry_range (carry, x[a:b], x[i]), fields (x[\"f\"] and x[[\"f\", \"g\"]] through lists and options)",
  "C02": "tolist (every physical encoding -- ListArray/ListOffsetArray/RegularArray in 32/U32/64 bit, shifted or shuffled storage with unreachable elements, IndexedArray views, all five option encodings with arbitrary padding bits and negative indexes, strided/offset/reversed/n-dimensional NumpyArray, records, unions -- reads back as the encoded value), carry_range, convert (toListOffsetArray64, toRegularArray, option-encoding conversions, simplify, project, bytemask, deep_copy, contiguous); every other family also draws its inputs from these encodings and compares with a layout-independent reference",
  "C03": "reduce_ragged (all ten reducers, every axis written positively or negatively, mask_identity, keepdims, missing leaves and missing lists, every encoding) and reduce_rect (rectilinear arrays incl. size-0 dimensions and n-dimensional NumpyArray)",
+ "C04": "broadcast (the list-alignment step only: broadcast_tooffsets64 of ListArray / ListOffsetArray / RegularArray onto offsets with the same list lengths keeps the value, a length-1 regular dimension repeats its element to the requested lengths, different lengths raise)",
  "C05": "num, flatten (incl. unions of list types), localindex at every axis",
- "C06": "sort and argsort along the innermost axis (both directions, stable or not, NaN first, missing leaves last, positions realise the order, ties in original order when stable)",
+ "C06": "sort and argsort along the innermost axis (both directions, stable or not, NaN first, missing leaves last, positions realise the order, ties in original order when stable; lists of strings and bytestrings sorted as whole units by bytes)",
  "C07": "combinations (n 1..4, with/without replacement, every axis, tuples and order equal to itertools)",
- "C08": "concat (ak.concatenate axis=0 composed from mergeable/mergemany/merge_as_union/simplify as structure.py does: same types, numerically different leaf types with the promoted dtype checked against numpy.result_type for two arrays, different types giving unions)",
+ "C08": "concat (ak.concatenate axis=0 composed from mergeable/mergemany/merge_as_union/simplify as structure.py does: same types, numerically different leaf types with the promoted dtype checked against numpy.result_type for two arrays, different types giving unions, record arrays with the same fields stored in another order, IndexedArray nodes with repeats), astype (values_astype against numpy.astype leaf by leaf, n-dimensional arrays included), simplify_union (simplify_uniontype keeps every value)",
  "C09": "rpad (pad_none with/without clip at every axis), fillna (fill_none at the top option level), convert (conversions among the option encodings, project, bytemask = is_none)",
- "C11": "valid_accept (layouts obeying every documented rule pass validityerror), valid_reject (one documented rule broken at one node: reported, or refused by the constructor) and, in EVERY family, the layout returned for a valid input passes validityerror",
+ "C11": "valid_accept (layouts obeying every documented rule -- strings, bytestrings and fixed-length strings included -- pass validityerror), valid_reject (one documented rule broken at one node: reported, or refused by the constructor) and, in EVERY family, the layout returned for a valid input passes validityerror",
  "C12": "every family: the call neither crashes nor hangs (each case runs in a forked child with a 20 s alarm), the input layouts are byte-for-byte unchanged afterwards and the result reads the same after its inputs have been dropped; invalid_nocrash (to_list / deep_copy / depth queries on layouts with one broken rule never crash); thorough tier: the same under AddressSanitizer",
  "C14": "builder (random well-nested values through the real ArrayBuilder incl. records with differing fields, tuples, strings, None, mixed numbers: final to_list equals the appended values up to the documented unification, length, validity; snapshots taken in between equal the values appended so far and read the same at the end, for initial buffer sizes 1, 2, 8, 1024) and builder_malformed (unbalanced end, field/index outside record/tuple raise)",
  "C19": "forth (random small programs -- stack/arithmetic/comparison/bitwise words, if/else, do/loop/+loop with i, begin/until, begin/while/repeat, user words with exit, variables, typed little/big-endian, repeated, varint and zigzag reads to the stack or to an output, seek/skip/len/pos/end, typed output writes, +<-, rewind, halt, pause -- on the real ForthMachine64 in three schedules (run resumed after every pause, single-stepped, mixed) and with output buffers starting at 1, 2 or 1024 items: error status, stack, variables, outputs and input positions equal those of the reference interpreter akvlib/nat/forthref.py written from the documented semantics)",
